@@ -98,7 +98,7 @@ Section C04.
     kg_strip : c_recv c <> [] -> strips_first pc f = true;
     kg_one : List.length (c_recv c) <= 1;
     kg_probe : forall inst, instance_of f c = Ok inst -> clazz_probe f c inst = Ok tt;   (* K2: '@staticmethod' in the text *)
-    kg_varpos : has_varpos (f_params f) = true -> c_recv c = [];  (* the receiver is checked against the annotation of *args *)
+    kg_varpos : has_varpos (f_params f) = true -> c_recv c = [] \/ is_instance_method f = true;  (* a receiver the first pass does not count is checked against the annotation of *args *)
     kg_iter : no_oneshot_iter f c = true;                        (* K1 *)
     kg_same : bound_src f ++ call_pos pc f c = twin_pos c;       (* K7, K2: the undecorated callable gets the same receiver *)
   }.
@@ -239,7 +239,7 @@ Section C04.
     Hypothesis Hprobe : clazz_probe f c inst = Ok tt.
 
     Lemma chk_accepts : forall a v s st, accepts a v -> has_iter v = false ->
-      exists tv', chk check consumes f c inst a v s st = Ok {| a_tv := tv'; a_cons := a_cons st; a_checked := a_checked st |}.
+      exists tv', chk check consumes f c inst a v s st = Ok {| a_tv := tv'; a_cons := a_cons st; a_checked := a_checked st; a_idx := a_idx st |}.
     Proof.
       intros a v s st Hacc Hni. unfold chk. rewrite Hprobe. specialize (Hacc (a_tv st)).
       destruct (check a v (a_tv st)) as [[uu|e] tv']; simpl in Hacc; [|discriminate].
@@ -249,35 +249,35 @@ Section C04.
     (* first pass *)
     Lemma pass_named_succeeds : forall ps idx st, incl ps (declared f) -> (forall p, In p ps -> is_star p = false) ->
       exists tv', pass_named pc check consumes f c inst ps idx st =
-                  Ok {| a_tv := tv'; a_cons := a_cons st; a_checked := a_checked st ++ map p_name ps |}.
+                  Ok {| a_tv := tv'; a_cons := a_cons st; a_checked := a_checked st ++ map p_name ps; a_idx := idx |}.
     Proof.
       induction ps as [|p ps IH]; intros idx st Hi Hs.
-      - simpl. rewrite app_nil_r. exists (a_tv st). now destruct st.
+      - simpl. rewrite app_nil_r. exists (a_tv st). reflexivity.
       - assert (Hp : In p (declared f)) by (apply Hi; now left).
         assert (Hps : is_star p = false) by (apply Hs; now left).
         assert (Hi' : incl ps (declared f)) by (intros x Hx; apply Hi; now right).
         assert (Hs' : forall q, In q ps -> is_star q = false) by (intros q Hq; apply Hs; now right).
         cbn [pass_named].
-        set (st1 := {| a_tv := a_tv st; a_cons := a_cons st; a_checked := a_checked st ++ [p_name p] |}).
+        set (st1 := {| a_tv := a_tv st; a_cons := a_cons st; a_checked := a_checked st ++ [p_name p]; a_idx := a_idx st |}).
         destruct (kw_get (p_name p) (c_kwargs c)) as [v|] eqn:Ek.
         + destruct (kw_supplied p v Hp Hps Ek) as [a [Ha Hacc]]. rewrite Ha.
           destruct (chk_accepts a v (SKw (p_name p)) st1 Hacc (kw_value_no_iter _ _ Ek)) as [tv1 E1]. rewrite E1. cbn [Exn.bind].
-          destruct (IH idx {| a_tv := tv1; a_cons := a_cons st1; a_checked := a_checked st1 |} Hi' Hs') as [tv2 E2].
+          destruct (IH idx {| a_tv := tv1; a_cons := a_cons st1; a_checked := a_checked st1; a_idx := a_idx st1 |} Hi' Hs') as [tv2 E2].
           rewrite E2. exists tv2. unfold st1. simpl. now rewrite <- app_assoc.
         + destruct (default_supplied p Hp Hps Ek) as [a [d [Ha [Hd Hacc]]]]. rewrite Ha, Hd.
           destruct (chk_accepts a d (SDefault (p_name p)) st1 Hacc (default_no_iter p d Hp Hd)) as [tv1 E1]. rewrite E1. cbn [Exn.bind].
-          destruct (IH idx {| a_tv := tv1; a_cons := a_cons st1; a_checked := a_checked st1 |} Hi' Hs') as [tv2 E2].
+          destruct (IH idx {| a_tv := tv1; a_cons := a_cons st1; a_checked := a_checked st1; a_idx := a_idx st1 |} Hi' Hs') as [tv2 E2].
           rewrite E2. exists tv2. unfold st1. simpl. now rewrite <- app_assoc.
     Qed.
 
     Lemma chk_all_succeeds : forall a l st, (forall v s, In (v, s) l -> accepts a v /\ has_iter v = false) ->
-      exists tv', chk_all check consumes f c inst a l st = Ok {| a_tv := tv'; a_cons := a_cons st; a_checked := a_checked st |}.
+      exists tv', chk_all check consumes f c inst a l st = Ok {| a_tv := tv'; a_cons := a_cons st; a_checked := a_checked st; a_idx := a_idx st |}.
     Proof.
       intros a. induction l as [|[v s] l IH]; intros st H.
       - simpl. exists (a_tv st). now destruct st.
       - simpl. destruct (H v s (or_introl eq_refl)) as [Hacc Hni].
         destruct (chk_accepts a v s st Hacc Hni) as [tv1 E1]. rewrite E1. cbn [Exn.bind].
-        destruct (IH {| a_tv := tv1; a_cons := a_cons st; a_checked := a_checked st |}) as [tv2 E2]; [intros v' s' Hin'; apply (H v' s'); now right|].
+        destruct (IH {| a_tv := tv1; a_cons := a_cons st; a_checked := a_checked st; a_idx := a_idx st |}) as [tv2 E2]; [intros v' s' Hin'; apply (H v' s'); now right|].
         rewrite E2. eauto.
     Qed.
 
@@ -317,19 +317,24 @@ Section C04.
       { intros x Hx. now apply filter_In in Hx as [Hx _]. }
       { intros p Hp. apply filter_In in Hp as [_ Hp]. now apply negb_true_iff in Hp. }
       rewrite E1. cbn [Exn.bind]. simpl a_checked.
-      set (st1 := {| a_tv := tv1; a_cons := a_cons astate0; a_checked := [] ++ map p_name (filter (fun p => negb (is_star p)) (declared f)) |}).
+      set (st1 := {| a_tv := tv1; a_cons := a_cons astate0; a_checked := [] ++ map p_name (filter (fun p => negb (is_star p)) (declared f));
+                     a_idx := if is_instance_method f then 1 else 0 |}).
       (* second pass: no receiver in front of *args *)
       assert (E2 : exists tv2, pass_varpos check consumes f c inst (filter is_varpos (declared f)) st1 =
-                               Ok {| a_tv := tv2; a_cons := a_cons st1; a_checked := a_checked st1 |}).
+                               Ok {| a_tv := tv2; a_cons := a_cons st1; a_checked := a_checked st1; a_idx := a_idx st1 |}).
       { destruct (filter_declared_one is_varpos (or_introl eq_refl)) as [->|[q [-> [Hq Hkq]]]].
         - simpl. exists (a_tv st1). reflexivity.
         - unfold pass_varpos. destruct (p_ann q) as [a|] eqn:Ea; [|exfalso; now apply (kg_ann f c g q Hq)].
-          assert (Hr : c_recv c = []).
-          { apply (kg_varpos f c g). unfold has_varpos. apply existsb_exists. exists q. split; [|assumption].
-            now destruct (declared_incl f q Hsig Hq). }
-          unfold wargs, wsrc, arg_srcs. rewrite Hr, (kg_kw f c g). simpl. exists (a_tv st1). reflexivity. }
+          assert (Hnil : skipn (a_idx st1) (combine (wargs c) (wsrc c)) = []).
+          { unfold wargs, wsrc, arg_srcs. rewrite (kg_kw f c g). simpl. rewrite !app_nil_r.
+            destruct (kg_varpos f c g) as [Hr|Hi].
+            - unfold has_varpos. apply existsb_exists. exists q. split; [|assumption]. now destruct (declared_incl f q Hsig Hq).
+            - rewrite Hr. simpl combine. apply skipn_nil.
+            - unfold st1. simpl a_idx. rewrite Hi. pose proof (kg_one f c g) as Hl.
+              destruct (c_recv c) as [|r [|r2 l]]; simpl in *; try reflexivity; lia. }
+          rewrite Hnil. simpl. exists (a_tv st1). reflexivity. }
       destruct E2 as [tv2 E2]. rewrite E2. cbn [Exn.bind].
-      set (st2 := {| a_tv := tv2; a_cons := a_cons st1; a_checked := a_checked st1 |}).
+      set (st2 := {| a_tv := tv2; a_cons := a_cons st1; a_checked := a_checked st1; a_idx := a_idx st1 |}).
       destruct (filter_declared_one is_varkw (or_intror eq_refl)) as [->|[q [-> [Hq Hkq]]]].
       - simpl. exists st2. split; reflexivity.
       - unfold pass_varkw. destruct (p_ann q) as [a|] eqn:Ea; [|exfalso; now apply (kg_ann f c g q Hq)].
